@@ -36,6 +36,8 @@ Record env := {
   e_arr : string -> option (list obs);     (* the arrays in scope (None: not an array name) *)
   e_num : string -> option (option Q);     (* the scalars in scope: Some None = Python None *)
   e_str : string -> option string;         (* the string-valued parameters in scope *)
+  e_bool : string -> option (nat -> bool); (* boolean index arrays in scope (the DATA of a masked boolean array:
+                                              numpy indexes with the data and ignores the mask) *)
   e_size : nat                             (* common length of the arrays *)
 }.
 
@@ -73,6 +75,7 @@ Definition cmp_q (op : string) (a b : Q) : bool :=
 (* boolean array expression at index i.  A comparison with a missing (NaN / masked) element is False. *)
 Fixpoint eval_b (en : env) (e : sexp) (i : nat) : bool :=
   match e with
+  | SName a => match e_bool en a with Some f => f i | None => false end       (* values_idx *)
   | SAttr (SName a) f =>
       if String.eqb f "mask" then match e_arr en a with Some l => is_none (getq l i) | None => false end else false
   | SCmp op a b =>
@@ -102,6 +105,8 @@ Fixpoint eval_b (en : env) (e : sexp) (i : nat) : bool :=
 (* guard of an enclosing `if`: `x is not None`, `x is None`, `b is True`, `isnan(s[0])`, `a.size > k`, `a and b` *)
 Fixpoint eval_g (en : env) (e : sexp) : bool :=
   match e with
+  | SName s =>                                   (* a boolean scalar (bound to 1 / 0), e.g. an opaque guard *)
+      match e_num en s with Some (Some q) => negb (Qeqb q 0) | _ => false end
   | SCmp op a b =>
       if String.eqb op "isnot" then match eval_num en a with Some (Some _) => true | _ => false end
       else if String.eqb op "is" then
